@@ -30,7 +30,7 @@ class SymTab:
 
 
 class State:
-    __slots__ = ("st", "cells", "iv", "lin", "cmpd", "ovf", "notd", "absd", "discr", "when", "facts", "dead", "log", "gen")
+    __slots__ = ("st", "cells", "iv", "lin", "cmpd", "ovf", "notd", "absd", "discr", "when", "facts", "dead", "log", "gen", "emem")
 
     def __init__(self, st):
         self.st = st
@@ -47,6 +47,9 @@ class State:
         self.dead = False
         self.gen = {}
         self.log = ()  # read/write logs (tuple, append-only per path)
+        # element reads of this straight-line state: (cell, path) -> (sequence object, value). Reading the same
+        # place of the same (immutable) sequence value twice yields the same element; dropped at every join.
+        self.emem = {}
 
     def copy(self):
         n = State(self.st)
@@ -63,6 +66,7 @@ class State:
         n.dead = self.dead
         n.gen = dict(self.gen)
         n.log = self.log
+        n.emem = dict(self.emem)
         return n
 
     # ----- symbols -------------------------------------------------------
@@ -362,6 +366,11 @@ class State:
                 h = self.hull(d)
                 if h is not None and h == (0, 0):
                     self.dead = True
+                # a != b together with a <= b gives a < b (loops written `if i == n { break }`)
+                elif self.entails(d):
+                    self.add_fact(d.addc(1))
+                elif self.entails(d.scale(-1)):
+                    self.add_fact(d.scale(-1).addc(1))
 
     def decide_cmp(self, op, a, b):
         """Returns True / False when the comparison is decided, else None."""
